@@ -424,6 +424,7 @@ package swap
 //@ ensures result1 == nil ==> (uf("payreqMsat", uint64(0), result0) == msatAmount && uf("payreqCltv", int64(0), result0) == int64(expiryCltv) && uf("payreqExpiry", uint64(0), result0) == expirySeconds)
 // the node builds the invoice for the preimage it is given (C08: the hash locked in the output is that preimage's)
 //@ ensures result1 == nil ==> uf("payreqPreimage", "", result0) == preimage
+//@ requires @C23 invoice-text-is-public: untainted(memo, swapId)
 //@ requires @C08,in:swap invoice-for-generated-preimage: invoiceType == INVOICE_CLAIM ==> preimage == ghost.genPreimage.String()
 //@ assigns nothing
 
@@ -741,7 +742,7 @@ package swap
 
 //@ func (*SwapService).OnSwapOutRequestReceived
 //@ requires @C21,in:payload within-size-limit: len(payload) <= 102400
-//@ property C21 C09 C10 C11
+//@ property C21 C09 C10 C11 C23
 //@ forall k0 string
 //@ requires service: s != nil && s.swapServices != nil && s.activeSwaps != nil
 //@ requires message: message != nil
@@ -752,7 +753,7 @@ package swap
 
 //@ func (*SwapService).OnSwapInRequestReceived
 //@ requires @C21,in:payload within-size-limit: len(payload) <= 102400
-//@ property C21 C09 C10 C11
+//@ property C21 C09 C10 C11 C23
 //@ forall k0 string
 //@ requires service: s != nil && s.swapServices != nil && s.activeSwaps != nil
 //@ requires message: message != nil
@@ -905,14 +906,42 @@ package swap
 //@ assigns nothing
 
 //@ func (*SwapService).SwapOut
-//@ property C26 C10 C16
+//@ property C26 C10 C16 C23
 //@ requires s != nil && s.swapServices != nil && s.activeSwaps != nil && !ghost.dirty && ghost.msgPeer == "" && !ghost.recovered
 
 //@ func (*SwapService).SwapIn
-//@ property C26 C10 C16
+//@ property C26 C10 C16 C23
 //@ requires s != nil && s.swapServices != nil && s.activeSwaps != nil && !ghost.dirty && ghost.msgPeer == "" && !ghost.recovered
 
 // A swap id is an immutable 32-byte value: its text form is a function of the
 // id object (ASSUMED: no code writes into a SwapId after it was created).
 //@ func (*SwapId).String
 //@ pureref
+
+// ---------------------------------------------------------------------------
+// C23: secrets leave the node only as the taker's per-swap key in coop_close.
+// Information-flow labels: a value depends on a secret when the term denoting
+// it mentions a secret field's storage, a secret function result, or text
+// formatted from an object that holds secret fields (data flows and flows
+// through the conditions of merged paths). Nothing that depends on a secret may
+// be stored into a field of a message that is sent (except the two declassified
+// fields below), into the texts a later cancel / coop_close message is built
+// from, or be handed to the node as an invoice description.
+// ---------------------------------------------------------------------------
+//@ secret @C23 SwapData.ClaimPreimage SwapData.FeePreimage SwapData.PrivkeyBytes SwapData.BlindingKeyHex SwapData.NextMessage
+//@ secretresult @C23 GetPreimage getRandomPrivkey NewPrivateKey LightningClient.RebalancePayment LightningClient.PayInvoiceViaChannel LightningClient.RecoverClaimPayment
+//@ nosecret @C23 SwapInRequestMessage.* SwapOutRequestMessage.* SwapInAgreementMessage.* SwapOutAgreementMessage.* CancelMessage.*
+//@ nosecret @C23 CoopCloseMessage.SwapId CoopCloseMessage.Message
+//@ nosecret @C23 OpeningTxBroadcastedMessage.SwapId OpeningTxBroadcastedMessage.Payreq OpeningTxBroadcastedMessage.TxId OpeningTxBroadcastedMessage.ScriptOut
+//@ nosecret @C23 SwapData.CancelMessage SwapData.LastErrString
+// the one declassification: coop_close carries this swap's own key and nothing else secret
+//@ onlysecret @C23 CoopCloseMessage.Privkey SwapData.PrivkeyBytes
+// the key is sent only by the taker's coop-close states; a maker never builds that message
+//@ table getSwapOutSenderStates set KeyStates State_SwapOutSender_SendPrivkey
+//@ table getSwapOutSenderStates onlyin @C23 TakerSendPrivkeyAction KeyStates
+//@ table getSwapInReceiverStates set KeyStates State_SwapInReceiver_SendPrivkey
+//@ table getSwapInReceiverStates onlyin @C23 TakerSendPrivkeyAction KeyStates
+//@ table getSwapInSenderStates set NoStates
+//@ table getSwapInSenderStates onlyin @C23 TakerSendPrivkeyAction NoStates
+//@ table getSwapOutReceiverStates set NoStates
+//@ table getSwapOutReceiverStates onlyin @C23 TakerSendPrivkeyAction NoStates
